@@ -50,6 +50,9 @@ def run(ctx):
     obs = eng.analyze([(p, None) for p in api])
     assume = load_assumptions()
     by_sig = {a["sig"]: a for a in assume.values() if a.get("sig")}
+    for a in assume.values():
+        for s2 in a.get("alt_sigs", []):
+            by_sig.setdefault(s2, a)
     sig_used = {}
     counts = {"discharged": 0, "assumed": 0, "constant": 0, "failed": 0}
     used = set()
